@@ -192,21 +192,30 @@ func (lit *levelIterator) Seek(id []byte) error {
 		lit.value = copyBytes(lit.it.Value())
 		return nil
 	}
+	lit.key = nil
+	lit.value = nil
 	return fmt.Errorf("Invalid")
 }
 
 func (lit *levelIterator) SeekReverse(id []byte) error {
 	lit.forward = false
-	if lit.it.Seek(id) {
+	//if every key is below the request, the last key is the answer
+	if lit.it.Seek(id) || lit.it.Last() {
 		//Level iterator will land on the first value above the request
 		//if we're there, move once to get below start request
 		if bytes.Compare(id, lit.it.Key()) < 0 {
-			lit.it.Prev()
+			if !lit.it.Prev() {
+				lit.key = nil
+				lit.value = nil
+				return fmt.Errorf("Invalid")
+			}
 		}
 		lit.key = copyBytes(lit.it.Key())
 		lit.value = copyBytes(lit.it.Value())
 		return nil
 	}
+	lit.key = nil
+	lit.value = nil
 	return fmt.Errorf("Invalid")
 }
 
